@@ -3475,6 +3475,13 @@ class WaitMatch(Match):
         for state, trans in sm.transitions_pointing_to(current_error_handlers[ErrorReasons.NO_MATCH], True):
             trans.to(sm.starting_state).handles_else()  # we make these error handling since that makes semantic sense for the usual use case for a wait node
             if state == sm.starting_state:
+                # this transition skips a byte that cannot start the pattern; the end of input is not a byte to skip
+                # (an inverted character class lists End among the symbols it rejects)
+                if DFTransition.End in trans.on_values:
+                    trans.on_values = [x for x in trans.on_values if x is not DFTransition.End]
+                    if not trans.on_values:
+                        state.transitions.remove(trans)
+                        continue
                 trans.fallthrough(False).attach(*self.char_actions)
         return sm
 
